@@ -155,7 +155,8 @@ def build_items(ctx, rnd):
         E = m.EXTMATCH if mode == 'fn' else m.EXTGLOB
         D = m.DOTMATCH if mode == 'fn' else m.DOTGLOB
         base = E | (G.GLOBSTAR if mode == 'gl' else 0)
-        variants = [base, base | D] + ([base | G.NODIR] if mode == 'gl' else [])
+        # (without GLOBSTAR too: the implicit match-everything inclusion of NEGATEALL is `**` with GLOBSTAR forced, whatever the caller passed)
+        variants = [base, base | D] + ([base | G.NODIR, E, E | D, E | G.GLOBSTARLONG] if mode == 'gl' else [])
         nq = 500 if ctx.quick else 5000
         for _ in range(nq):
             k = rnd.randint(1, 3)
@@ -166,6 +167,12 @@ def build_items(ctx, rnd):
             fl = rnd.choice(variants)
             # exclude= form
             items.append((mode, 'exclude_kw', fl, (incs, excs if excs else None), incs, excs, False))
+            # exclude= given TOGETHER with the NEGATE family of flags: the flags are switched off, a leading ! or - is then literal text
+            if rnd.random() < 0.35:
+                excs2 = [rnd.choice(['!a', '-a', '!*', '!', '-', '!(a)']) if rnd.random() < 0.6 else e for e in (excs or ['!a'])]
+                incs2 = [rnd.choice(['!a', '-a', '*']) if rnd.random() < 0.3 else p for p in incs]
+                nf = rnd.choice([m.NEGATE, m.NEGATE | m.MINUSNEGATE, m.NEGATE | m.NEGATEALL, m.NEGATE | m.MINUSNEGATE | m.NEGATEALL])
+                items.append((mode, 'exclude_kw_with_negate_flags', fl | nf, (incs2, excs2), incs2, excs2, False))
             # inline NEGATE form with ! (skipping exclusions that would spell !( under EXTMATCH)
             if all(not e.startswith('(') for e in excs) and all(not p.startswith('!') or p.startswith('!(') for p in incs) and all(e for e in excs):
                 mixed = incs + ['!' + e for e in excs]
